@@ -244,19 +244,15 @@ pub proof fn lemma_bytes_shr(w: nat, a: nat, s: nat)
     ensures nat_le_bytes(bv_shr(w, a, s), w / 8) == shr_bytes(nat_le_bytes(a, w / 8), s / 8),
 {
     reveal(bv_shr);
+    lemma_pow2_pos(s);
     let n = w / 8;
     let k = s / 8;
     assert(8 * n == w && 8 * k == s);
     let l = nat_le_bytes(a / pow2(s), n);
     let r = shr_bytes(nat_le_bytes(a, n), k);
-    assert(l.len() == n);
-    assert(r.len() == n);
     assert forall|i: int| 0 <= i < n implies l[i] == r[i] by {
         lemma_nat_byte_shr(a, k, i as nat);
-        assert(l[i] == nat_byte(a / pow2(s), i as nat));
-        assert(nat_byte(a / pow2(s), i as nat) == nat_byte(a, i as nat + k));
-        if i + k >= n { lemma_nat_byte_high(a, n, (i + k) as nat); assert(r[i] == 0); assert(nat_byte(a, (i + k) as nat) == 0); }
-        else { assert(r[i] == nat_le_bytes(a, n)[i + k]); assert(r[i] == nat_byte(a, (i + k) as nat)); }
+        if i + k >= n { lemma_nat_byte_high(a, n, (i + k) as nat); }
     }
     assert(l =~= r);
 }
@@ -266,6 +262,7 @@ pub proof fn lemma_bytes_trun(w: nat, a: nat, b: nat)
     ensures nat_le_bytes(bv_trun(b, a), b / 8) == nat_le_bytes(a, w / 8).take((b / 8) as int),
 {
     reveal(bv_trun);
+    lemma_pow2_pos(b);
     let n = w / 8;
     let k = b / 8;
     assert(8 * n == w && 8 * k == b);
@@ -298,6 +295,8 @@ pub proof fn lemma_bytes_shl(w: nat, a: nat, s: nat)
     ensures nat_le_bytes(bv_shl(w, a, s), w / 8) == shl_bytes(nat_le_bytes(a, w / 8), s / 8),
 {
     reveal(bv_shl);
+    lemma_pow2_pos(s);
+    lemma_pow2_pos(w);
     let n = w / 8;
     let k = s / 8;
     assert(8 * n == w && 8 * k == s);
